@@ -123,6 +123,116 @@ def _same_field_reload(mod, fn, M, a, b):
     return True
 
 
+
+# ---- S-lh1-types: index typing of the -lh1- tables ---------------------------------------------------------------------------------
+LH1 = "LHALH1Decoder"
+LH1_TABLE_INDEX = {"nodes": "node", "leaf_nodes": "code", "groups": "pool", "group_leader": "group"}       # what indexes each table
+LH1_ELEM_TYPE = {"leaf_nodes": "node", "groups": "group", "group_leader": "node"}                           # what each table's elements are
+LH1_NODE_FIELD_TYPE = {"parent": "node", "group": "group"}                                                  # index-valued members of a node
+
+
+def _lh1_access(mod, fn, addr):
+    """(table, index operand or None, node member or None) for an address inside one of the -lh1- tables, else None"""
+    steps, o = [], addr
+    for _ in range(8):
+        d = fn.defn(o)
+        if d is None or d.is_param:
+            break
+        if d.op == "bitcast":
+            o = d.ops[0]
+            continue
+        if d.op != "getelementptr":
+            break
+        steps = list(d.steps) + steps
+        o = d.ops[0]
+    for k, st in enumerate(steps):
+        if st["k"] == "field" and mod.struct_cname(st["struct"]) == LH1 and mod.field_name(st["struct"], st["field"]) in LH1_TABLE_INDEX:
+            tab = mod.field_name(st["struct"], st["field"])
+            rest = steps[k + 1:]
+            idx = None
+            member = None
+            for r in rest:
+                if r["k"] in ("arr", "ptr") and member is None:
+                    if r["idx"][0] != "ci":              # (the array-decay step `[0]` and constant offsets carry no index kind)
+                        idx = r["idx"] if idx is None else ("mixed",)
+                elif r["k"] == "field" and mod.struct_cname(r["struct"]) == "Node":
+                    member = mod.field_name(r["struct"], r["field"])
+            return tab, idx, member
+    return None
+
+
+def lh1_index_types(mod):
+    """index-type discipline of the four -lh1- tables: a value loaded from a holder of node indices is used to index nodes[] (and only that), etc.
+    Returns (consistent uses, [(where, text)] confusions).  Values whose type cannot be told (counters, constants, arithmetic) are not judged."""
+    fns = [f for f in mod.defined() if f.file.endswith("lh1_decoder.c")]
+    ptype, rtype = {}, {}
+
+    def vtype(fn, o, seen=()):
+        if o is None or o[0] != "v":
+            return None
+        d = fn.defn(o)
+        if d is None or d.id in seen:
+            return None
+        if d.is_param:
+            return ptype.get((fn.name, d.index))
+        seen = seen + (d.id,)
+        if d.op in ("zext", "sext", "trunc", "bitcast"):
+            return vtype(fn, d.ops[0], seen)
+        if d.op in ("add", "sub") and any(o2[0] == "ci" for o2 in d.ops):
+            return vtype(fn, [x for x in d.ops if x[0] != "ci"][0], seen) if any(x[0] != "ci" for x in d.ops) else None
+        if d.op in ("phi", "select"):
+            vals = [v for v, _ in d.incoming] if d.op == "phi" else d.ops[1:]
+            ts = {vtype(fn, v, seen) for v in vals} - {None}
+            return ts.pop() if len(ts) == 1 else None
+        if d.op == "load":
+            a = _lh1_access(mod, fn, d.ops[0])
+            if a is None:
+                return None
+            tab, idx, member = a
+            if tab == "nodes":
+                return LH1_NODE_FIELD_TYPE.get(member)
+            return LH1_ELEM_TYPE.get(tab)
+        if d.op == "call" and d.callee:
+            return rtype.get(d.callee)
+        return None
+
+    for _ in range(4):          # parameters and results of the helpers: what every call site passes / every return hands back
+        for f in fns:
+            for c in f.insts():
+                if c.op == "call" and c.callee and any(g.name == c.callee for g in fns):
+                    for k, a in enumerate(c.ops):
+                        t = vtype(f, a)
+                        if t is not None:
+                            ptype.setdefault((c.callee, k), t)
+            ts = {vtype(f, r.ops[0]) for r in f.insts() if r.op == "ret" and r.ops} - {None}
+            if len(ts) == 1:
+                rtype[f.name] = ts.pop()
+    good, bad = 0, []
+    for f in fns:
+        for i in f.insts():
+            if i.op not in ("load", "store"):
+                continue
+            a = _lh1_access(mod, f, i.ops[0] if i.op == "load" else i.ops[1])
+            if a is None:
+                continue
+            tab, idx, member = a
+            t = vtype(f, idx) if idx is not None else None
+            if t is not None:
+                if t == LH1_TABLE_INDEX[tab]:
+                    good += 1
+                else:
+                    bad.append((i.where(), "%s[] is indexed with a %s index (it takes a %s index)" % (tab, t, LH1_TABLE_INDEX[tab])))
+            if i.op == "store":
+                want = LH1_NODE_FIELD_TYPE.get(member) if tab == "nodes" else LH1_ELEM_TYPE.get(tab)
+                tv = vtype(f, i.ops[0])
+                if want is not None and tv is not None:
+                    if tv == want:
+                        good += 1
+                    else:
+                        bad.append((i.where(), "a %s index is stored where %s%s holds %s indices" % (tv, tab, ("[]." + member) if member else "[]", want)))
+    return good, bad
+
+
 def run(tier, seed):
     rep = Report("C09", tier, "other",
                  "Abstract interpretation (intervals with sign-split memory invariants, pointer regions with sub-object bounds, "
@@ -414,6 +524,16 @@ def run(tier, seed):
                           None if dom else "no store num_groups = 0 dominates this loop: every rebuild stacks its groups on top of the abandoned ones and groups[num_groups] runs off the table",
                           function=ent.cname, obj="pool-reset")
         rep.check(rid, npool >= 4, "group pool sites found", "lh1_decoder.c", "%d" % npool, function="lh1", obj="pool-sites")
+
+        rid = rep.rule("S-lh1-types", "support of A-lh1-tree: the index kinds of the -lh1- tables are never mixed - what is loaded from a holder of node indices "
+                                      "(parent, leaf_nodes[], group_leader[]) indexes nodes[] only, group ids (group, groups[]) index group_leader[] only, and each holder "
+                                      "is given values of its own kind", 12)
+        good, bad = lh1_index_types(plain)
+        for _ in range(good):
+            rep.ok(rid, "index kind consistent", None, "lh1_decoder.c")
+        for w_, text in bad:
+            rep.violation(rid, "lh1 index kinds: %s" % text, w_, "an index of the wrong kind escapes the range its table was sized for (tables of 627 and 314 entries): the tree-shape "
+                          "assumption A-lh1-tree presupposes that the kinds are kept apart", function="lh1", obj="index-kind")
 
         # ---- R4 pm1 table walk -------------------------------------------------------------------------------
         rid = rep.rule("R4", "pm1 byte_decode_trees: every bit path from each of the 32 roots stays inside its 5-byte row and ends in a leaf nibble", 32)
